@@ -83,6 +83,7 @@ class LemmaSet:
     def require(self, o, cond, what, extra_pc=None, cex=None):
         """Path condition of outcome o entails cond?  cond: z3 Bool or Python bool.
         cex: model -> replay scenario {'lines': [...], 'expect': [...]} for the native runner."""
+        self._budget_check()
         if isinstance(cond, bool):
             cond = z3.BoolVal(cond)
         pc = list(o.st.pc) + list(extra_pc or [])
@@ -95,6 +96,7 @@ class LemmaSet:
         r = s.check()
         self.ex.queries += 1
         self.ex.solver_time += time.time() - t0
+        self._cross_check(s, r, what)
         if r == z3.unsat:
             self.obligations.append(Obligation(self.cur, what, "holds"))
             return True
@@ -127,7 +129,45 @@ class LemmaSet:
             s.add(cond)
         return s.check() == z3.sat
 
+    def _cross_check(self, solver, verdict, what):
+        """second opinion on a sample of the queries (the first two obligations of every lemma, at most 60 per set,
+        thorough tier or VERIF_CROSSCHECK=1): the same SMT-LIB text is given to cvc5; a different verdict makes the lemma
+        undecided. Counts go to the evidence."""
+        import os, subprocess, tempfile
+        if not getattr(self, "cross_check", False) and not os.environ.get("VERIF_CROSSCHECK"):
+            return
+        st = self.__dict__.setdefault("cross_stats", {"agree": 0, "disagree": 0, "cvc5_unknown": 0})
+        per = self.__dict__.setdefault("_cross_per_lemma", {})
+        if per.get(self.cur, 0) >= 2 or sum(st.values()) >= 60 or verdict not in (z3.sat, z3.unsat):
+            return
+        per[self.cur] = per.get(self.cur, 0) + 1
+        try:
+            txt = "(set-logic ALL)\n" + solver.to_smt2()
+            with tempfile.NamedTemporaryFile("w", suffix=".smt2", delete=False) as f:
+                f.write(txt)
+                fn = f.name
+            p = subprocess.run(["cvc5", "--lang", "smt2", "--tlimit", "20000", fn], capture_output=True, text=True, timeout=40)
+            os.unlink(fn)
+            out = p.stdout.strip().splitlines()
+            ans = out[0].strip() if out else "unknown"
+        except Exception:
+            ans = "unknown"
+        if ans not in ("sat", "unsat") or "(error" in (p.stdout + p.stderr if 'p' in dir() else ""):
+            st["cvc5_unknown"] += 1
+        elif ans == str(verdict):
+            st["agree"] += 1
+        else:
+            st["disagree"] += 1
+            self.undecided.append((self.cur, "SOLVER DISAGREEMENT: z3 says %s, cvc5 says %s on: %s" % (verdict, ans, what)))
+
+    def _budget_check(self):
+        """the per-lemma wall-clock budget also covers the obligation phase (pairwise comparisons can be many)"""
+        dl = getattr(self.ex, "deadline", None)
+        if dl is not None and time.time() > dl + 30:
+            raise Unsupported("lemma time budget exceeded while discharging obligations")
+
     def jointly_feasible(self, o1, o2):
+        self._budget_check()
         s = z3.Solver()
         s.set("timeout", self.query_timeout_ms)
         s.add(*o1.st.pc)
